@@ -65,3 +65,37 @@ def instantiate_function_templates(templates, cls, table, skip=()):
         lines.append("template %s %s<%s>(%s)%s;" % (ret, t["qname"], targs, ps, " const" if t.get("const") else ""))
         done.append(t["key"])
     return "\n".join(lines) + "\n", done
+
+
+def instantiate_class_members(templates, cls, alias, table, skip=()):
+    """explicit instantiation of every member function of class template `cls` (qualified name without
+    arguments) one by one, for classes where `template class X<...>;` fails because a few members do
+    not compile. `alias` names the instantiated type; `table` substitutes template parameter names
+    and dependent typedef names textually; `skip` lists (name, substring of the parameter list) to omit."""
+    lines, done, skipped = [], [], []
+    short = cls.split("::")[-1]
+    for t in templates:
+        if t.get("cls") != cls:
+            continue
+        name = t["qname"].split("::")[-1]
+        ps = ", ".join(t["ptypes"])
+        if any(name == s[0] and s[1] in ps for s in skip):
+            skipped.append("%s(%s)" % (name, ps))
+            continue
+        if t["tparams"]:
+            skipped.append("%s(%s) [member template]" % (name, ps))
+            continue
+        def sub(x):
+            x = x.replace("typename ", "").replace(cls + "::", "")
+            x = re.sub(r"(bpp::)?%s<[^<>]*>" % re.escape(short), alias, x)
+            return subst(x, table)
+        psub = ", ".join(sub(p) for p in t["ptypes"])
+        cq = " const" if t.get("const") else ""
+        if t["ctor"]:
+            lines.append("template %s::%s(%s);" % (alias, short, psub))
+        elif t["dtor"]:
+            lines.append("template %s::~%s();" % (alias, short))
+        else:
+            lines.append("template %s %s::%s(%s)%s;" % (sub(t["ret"]), alias, name, psub, cq))
+        done.append("%s(%s)" % (name, ps))
+    return "\n".join(lines) + "\n", done, skipped
